@@ -28,7 +28,7 @@ struct C11 : Property
 	std::vector<std::string> probes() const override
 	{
 		return {"set.grow_from_inline_to_heap", "set.grow_heap_to_bigger_heap", "set.shrink_within_heap", "set.shrink_within_inline", "set.to_zero_length_from_heap", "set.same_length",
-		        "set.embedded_nul", "set.non_utf8", "set.refused_length", "set.alloc_failed_contents_kept", "roundtrip.with_nul", "copy.of_heap_string", "strlen_variant_truncates", "serialize.colour_flag", "set.from_own_serialization", "set.from_slice_of_own_contents"};
+		        "set.embedded_nul", "set.non_utf8", "set.refused_length", "set.alloc_failed_contents_kept", "roundtrip.with_nul", "copy.of_heap_string", "strlen_variant_truncates", "serialize.colour_flag", "set.from_own_serialization", "set.from_slice_of_own_contents", "set.truncate_through_own_pointer"};
 	}
 
 	static std::string gen_bytes(Rng &r, size_t prev)
@@ -46,6 +46,15 @@ struct C11 : Property
 		case 7: len = (size_t)r.range(20, 300); break;
 		case 8: len = r.chance(1, 10) ? (size_t)r.range(1000, 5000) : (size_t)r.range(0, 12); break;
 		default: len = (size_t)r.range(0, 40); break;
+		}
+		// one in eight contents is the text of a number (the coercing accessors then have something to say, in every storage mode)
+		if (r.chance(1, 8))
+		{
+			static const char *nums[] = {"7", "-17", "12345", "18446744073709551615", "9223372036854775807", "-9223372036854775808", "1.5e3", "0.25", "000123456789012", "  42", "12abc", "1e400"};
+			std::string n = nums[r.below(12)];
+			if (r.chance(1, 3))
+				n = std::string((size_t)r.range(1, 20), '0') + n; // long enough to leave the inline storage
+			return n;
 		}
 		std::string s(len, '\0');
 		int style = (int)r.below(4);
@@ -332,6 +341,22 @@ struct C11 : Property
 					size_t cur = n.bytes.size();
 					size_t k = cur / 2 ? 1 + (size_t)op.arg(2) % (cur / 2) : 0; // 1 <= k <= cur/2
 					size_t off = k ? k + (size_t)op.arg(3) % (cur - 2 * k + 1) : 0; // k <= off, off + k <= cur: no overlap with [0,k)
+					if ((op.arg(1) & 2) && cur > 0)
+					{
+						// truncation through the node's own pointer: set_string_len(n, get_string(n), k) with k below the length (also 0)
+						off = 0;
+						k = (size_t)op.arg(2) % cur;
+						want = n.bytes.substr(0, k);
+						const char *base0 = LIB(json_object_get_string(n.o));
+						rc = LIB(json_object_set_string_len(n.o, base0, (int)k));
+						ctx.probe("set.truncate_through_own_pointer");
+						if (rc != 1)
+							ctx.fail("C11:wrong-return", "op %zu: truncation through the node's own pointer returned %d", oi, rc);
+						n.bytes = want;
+						cov += "|owntrunc";
+						verify(ctx, n, oi, "selfsrc", true);
+						continue;
+					}
 					if (k == 0)
 					{
 						verify(ctx, n, oi, "selfsrc-skipped", false);
